@@ -70,6 +70,7 @@ fn err_class(t: &str, perr: bool) -> String {
         "WRONGTYPE Operation against a key holding the wrong kind of value" => "-wrongtype".into(),
         "ERR value is not an integer or out of range" => "-notint".into(),
         "ERR increment or decrement would overflow" => "-overflow".into(),
+        "ERR no such key" => "-nosuchkey".into(),
         "ERR unknown command 'FOO'" | "ERR unknown command 'RESET'" => "-unknown".into(),
         "ERR unknown command 'foo', with args beginning with: " => "-unknown-args".into(),
         "ERR AUTH is handled at connection level, not executor"
@@ -154,6 +155,19 @@ enum Cmd {
     Rpush(String, Vec<Vec<u8>>),
     Lrange(String),
     Llen(String),
+    /// LSET k 0 v
+    Lset(String, Vec<u8>),
+    Lpop(String),
+    Hset(String, Vec<u8>, Vec<u8>),
+    Hdel(String, Vec<u8>),
+    Sadd(String, Vec<u8>),
+    Srem(String, Vec<u8>),
+    Zadd(String, i64, Vec<u8>),
+    Zrem(String, Vec<u8>),
+    /// EXPIRE k 100000 (never reached in a session): a TTL-only change
+    Expire(String),
+    /// PERSIST k; the flag (did the key carry a deadline?) is observed right before sending
+    Persist(String, bool),
     Ping,
     Unwatch,
     Unk,
@@ -180,6 +194,16 @@ impl Cmd {
             }
             Cmd::Lrange(k) => vec![b("LRANGE"), b(k), b("0"), b("-1")],
             Cmd::Llen(k) => vec![b("LLEN"), b(k)],
+            Cmd::Lset(k, v) => vec![b("LSET"), b(k), b("0"), v.clone()],
+            Cmd::Lpop(k) => vec![b("LPOP"), b(k)],
+            Cmd::Hset(k, f, v) => vec![b("HSET"), b(k), f.clone(), v.clone()],
+            Cmd::Hdel(k, f) => vec![b("HDEL"), b(k), f.clone()],
+            Cmd::Sadd(k, m) => vec![b("SADD"), b(k), m.clone()],
+            Cmd::Srem(k, m) => vec![b("SREM"), b(k), m.clone()],
+            Cmd::Zadd(k, sc, m) => vec![b("ZADD"), b(k), b(&sc.to_string()), m.clone()],
+            Cmd::Zrem(k, m) => vec![b("ZREM"), b(k), m.clone()],
+            Cmd::Expire(k) => vec![b("EXPIRE"), b(k), b("100000")],
+            Cmd::Persist(k, _) => vec![b("PERSIST"), b(k)],
             Cmd::Ping => vec![b("PING")],
             Cmd::Unwatch => vec![b("UNWATCH")],
             Cmd::Unk => vec![b("FOO"), b("a")],
@@ -208,6 +232,16 @@ impl Cmd {
             }
             Cmd::Lrange(k) => format!("LRANGE {}", hk(k)),
             Cmd::Llen(k) => format!("LLEN {}", hk(k)),
+            Cmd::Lset(k, v) => format!("LSET {} {}", hk(k), hex(v)),
+            Cmd::Lpop(k) => format!("LPOP {}", hk(k)),
+            Cmd::Hset(k, f, v) => format!("HSET {} {} {}", hk(k), hex(f), hex(v)),
+            Cmd::Hdel(k, f) => format!("HDEL {} {}", hk(k), hex(f)),
+            Cmd::Sadd(k, m) => format!("SADD {} {}", hk(k), hex(m)),
+            Cmd::Srem(k, m) => format!("SREM {} {}", hk(k), hex(m)),
+            Cmd::Zadd(k, sc, m) => format!("ZADD {} {} {}", hk(k), sc, hex(m)),
+            Cmd::Zrem(k, m) => format!("ZREM {} {}", hk(k), hex(m)),
+            Cmd::Expire(k) => format!("EXPIRE {}", hk(k)),
+            Cmd::Persist(k, had) => format!("PERSIST {} {}", hk(k), *had as u8),
             Cmd::Ping => "PING".into(),
             Cmd::Unwatch => "UNWATCH".into(),
             Cmd::Unk => "UNK".into(),
@@ -217,12 +251,14 @@ impl Cmd {
     fn key(&self) -> Option<&str> {
         match self {
             Cmd::Get(k) | Cmd::Set(k, _) | Cmd::Incr(k) | Cmd::Append(k, _) | Cmd::Del(k) | Cmd::Rpush(k, _) | Cmd::Lrange(k) | Cmd::Llen(k) => Some(k),
+            Cmd::Lset(k, _) | Cmd::Lpop(k) | Cmd::Hset(k, _, _) | Cmd::Hdel(k, _) | Cmd::Sadd(k, _) | Cmd::Srem(k, _) | Cmd::Zadd(k, _, _) | Cmd::Zrem(k, _) | Cmd::Expire(k) | Cmd::Persist(k, _) => Some(k),
             _ => None,
         }
     }
     fn written_key(&self) -> Option<&str> {
         match self {
             Cmd::Set(k, _) | Cmd::Incr(k) | Cmd::Append(k, _) | Cmd::Del(k) | Cmd::Rpush(k, _) => Some(k),
+            Cmd::Lset(k, _) | Cmd::Lpop(k) | Cmd::Hset(k, _, _) | Cmd::Hdel(k, _) | Cmd::Sadd(k, _) | Cmd::Srem(k, _) | Cmd::Zadd(k, _, _) | Cmd::Zrem(k, _) => Some(k),
             _ => None,
         }
     }
@@ -375,19 +411,75 @@ enum Typed {
     Missing,
     Str(Vec<u8>),
     List(Vec<Vec<u8>>),
+    /// fields sorted by (length, bytes)
+    Hash(Vec<(Vec<u8>, Vec<u8>)>),
+    /// members sorted by (length, bytes)
+    Set(Vec<Vec<u8>>),
+    /// (member, score) sorted by member — the SCORE is part of the value
+    Zset(Vec<(Vec<u8>, i64)>),
     Other(String),
 }
 
+fn bkey(a: &[u8], b: &[u8]) -> std::cmp::Ordering {
+    (a.len(), a).cmp(&(b.len(), b))
+}
+
+fn bulks(r: Rv) -> Option<Vec<Vec<u8>>> {
+    match r {
+        Rv::Arr(Some(v)) => v.into_iter().map(|x| if let Rv::Bulk(Some(b)) = x { Some(b) } else { None }).collect(),
+        _ => None,
+    }
+}
+
+fn cmd_of(parts: &[&str]) -> Command {
+    to_command(&parts.iter().map(|p| b(p)).collect::<Vec<_>>())
+}
+
+/// typed value of a key, read from the store directly (the oracle's notion of "value")
 async fn typed(st: &ShardedActorState, k: &str) -> Typed {
-    match Rv::from_resp(&st.execute(&Command::Get(k.to_string())).await) {
+    match Rv::from_resp(&st.execute(&cmd_of(&["GET", k])).await) {
         Rv::Bulk(None) => Typed::Missing,
         Rv::Bulk(Some(v)) => Typed::Str(v),
-        Rv::Err(_) => match Rv::from_resp(&st.execute(&Command::LRange(k.to_string(), 0, -1)).await) {
-            Rv::Arr(Some(v)) => Typed::List(
-                v.into_iter().map(|x| if let Rv::Bulk(Some(b)) = x { b } else { b("?") }).collect(),
-            ),
-            o => Typed::Other(format!("{:?}", o)),
-        },
+        Rv::Err(_) => {
+            let ty = Rv::from_resp(&st.execute(&cmd_of(&["TYPE", k])).await);
+            let bad = |o: &dyn std::fmt::Debug| Typed::Other(format!("{:?}", o));
+            match ty {
+                Rv::Simple(ref t) if t == "list" => match bulks(Rv::from_resp(&st.execute(&cmd_of(&["LRANGE", k, "0", "-1"])).await)) {
+                    Some(v) => Typed::List(v),
+                    None => bad(&"lrange"),
+                },
+                Rv::Simple(ref t) if t == "hash" => match bulks(Rv::from_resp(&st.execute(&cmd_of(&["HGETALL", k])).await)) {
+                    Some(v) if v.len() % 2 == 0 => {
+                        let mut h: Vec<(Vec<u8>, Vec<u8>)> = v.chunks(2).map(|c| (c[0].clone(), c[1].clone())).collect();
+                        h.sort_by(|a, b| bkey(&a.0, &b.0));
+                        Typed::Hash(h)
+                    }
+                    _ => bad(&"hgetall"),
+                },
+                Rv::Simple(ref t) if t == "set" => match bulks(Rv::from_resp(&st.execute(&cmd_of(&["SMEMBERS", k])).await)) {
+                    Some(mut v) => {
+                        v.sort_by(|a, b| bkey(a, b));
+                        Typed::Set(v)
+                    }
+                    None => bad(&"smembers"),
+                },
+                Rv::Simple(ref t) if t == "zset" => match bulks(Rv::from_resp(&st.execute(&cmd_of(&["ZRANGE", k, "0", "-1", "WITHSCORES"])).await)) {
+                    Some(v) if v.len() % 2 == 0 => {
+                        let mut z = Vec::new();
+                        for c in v.chunks(2) {
+                            match String::from_utf8_lossy(&c[1]).parse::<i64>() {
+                                Ok(sc) => z.push((c[0].clone(), sc)),
+                                Err(_) => return bad(&c[1]),
+                            }
+                        }
+                        z.sort_by(|a, b| bkey(&a.0, &b.0));
+                        Typed::Zset(z)
+                    }
+                    _ => bad(&"zrange"),
+                },
+                o => bad(&o),
+            }
+        }
         o => Typed::Other(format!("{:?}", o)),
     }
 }
@@ -399,7 +491,8 @@ fn model_snapshot(t: &Typed) -> String {
     match t {
         Typed::Missing => "$-".into(),
         Typed::Str(v) => format!("${}", hex(v)),
-        Typed::List(_) | Typed::Other(_) => "-wrongtype".into(),
+        // every non-string value: the constant WRONGTYPE error
+        Typed::List(_) | Typed::Hash(_) | Typed::Set(_) | Typed::Zset(_) | Typed::Other(_) => "-wrongtype".into(),
     }
 }
 
@@ -408,7 +501,30 @@ fn kind(t: &Typed) -> &'static str {
         Typed::Missing => "missing",
         Typed::Str(_) => "string",
         Typed::List(_) => "list",
+        Typed::Hash(_) => "hash",
+        Typed::Set(_) => "set",
+        Typed::Zset(_) => "zset",
         Typed::Other(_) => "other",
+    }
+}
+
+fn non_string(t: &Typed) -> bool {
+    matches!(t, Typed::List(_) | Typed::Hash(_) | Typed::Set(_) | Typed::Zset(_))
+}
+
+/// commands that recreate a value
+fn rebuild_frames(k: &str, t: &Typed) -> Vec<Vec<Vec<u8>>> {
+    match t {
+        Typed::Str(v) => vec![vec![b("SET"), b(k), v.clone()]],
+        Typed::List(l) => {
+            let mut a = vec![b("RPUSH"), b(k)];
+            a.extend(l.iter().cloned());
+            vec![a]
+        }
+        Typed::Hash(h) => h.iter().map(|(f, v)| vec![b("HSET"), b(k), f.clone(), v.clone()]).collect(),
+        Typed::Set(m) => m.iter().map(|x| vec![b("SADD"), b(k), x.clone()]).collect(),
+        Typed::Zset(z) => z.iter().map(|(m, sc)| vec![b("ZADD"), b(k), b(&sc.to_string()), m.clone()]).collect(),
+        _ => vec![],
     }
 }
 
@@ -427,6 +543,25 @@ fn show_dump(d: &[(String, Typed)]) -> String {
                 for v in l {
                     s.push(' ');
                     s.push_str(&hex(v));
+                }
+            }
+            Typed::Hash(h) => {
+                s.push_str(&format!(" {} H {}", hex(k.as_bytes()), h.len()));
+                for (f, v) in h {
+                    s.push_str(&format!(" {} {}", hex(f), hex(v)));
+                }
+            }
+            Typed::Set(m) => {
+                s.push_str(&format!(" {} T {}", hex(k.as_bytes()), m.len()));
+                for v in m {
+                    s.push(' ');
+                    s.push_str(&hex(v));
+                }
+            }
+            Typed::Zset(z) => {
+                s.push_str(&format!(" {} Z {}", hex(k.as_bytes()), z.len()));
+                for (m, sc) in z {
+                    s.push_str(&format!(" {} {}", hex(m), sc));
                 }
             }
             Typed::Other(o) => s.push_str(&format!(" {} ? {}", hex(k.as_bytes()), hex(o.as_bytes()))),
@@ -467,6 +602,8 @@ struct World {
     nontrivial: bool,
     /// canonical reply of the last EXEC inside MULTI
     last_exec: Option<String>,
+    /// did the oracle see a value change of a watched key at that EXEC?
+    last_changed: bool,
 }
 
 impl World {
@@ -487,6 +624,7 @@ impl World {
             text: Vec::new(),
             nontrivial: false,
             last_exec: None,
+            last_changed: false,
         }
     }
 
@@ -510,10 +648,31 @@ impl World {
             "before-watch"
         };
         out.count(&format!("foreign:{}", pos));
+        let c = match c {
+            Cmd::Persist(k, _) => {
+                // deadlines are not modelled: observe whether the key carries one
+                let had = matches!(Rv::from_resp(&self.st.execute(&cmd_of(&["TTL", &k])).await), Rv::Int(n) if n >= 0);
+                Cmd::Persist(k, had)
+            }
+            c => c,
+        };
         let r = self.c2.call(&c.args()).await;
         self.text.push(format!("other client: {}", c.text()));
         out.op(format!("F {}", c.line()), show(&r, false));
         self.twin_apply(c.args()).await;
+    }
+
+    /// the other client gives `k` a deadline of 1 ms and the deadline passes: the shard evicts the
+    /// key before its next command (`set_time`).  Model: EXPIRE (reply only), then EVICT.
+    async fn expire_now(&mut self, out: &mut Out, k: &str) {
+        out.count("foreign:expiry-passes");
+        let r = self.c2.call(&[b("PEXPIRE"), b(k), b("1")]).await;
+        self.text.push(format!("other client: PEXPIRE {} 1; (5 ms pass)", k));
+        out.op(format!("F EXPIRE {}", hex(k.as_bytes())), show(&r, false));
+        tokio::time::sleep(std::time::Duration::from_millis(5)).await;
+        let gone = typed(&self.st, k).await == Typed::Missing;
+        out.op(format!("F EVICT {}", hex(k.as_bytes())), if gone { "+OK".into() } else { "not-evicted".into() });
+        self.twin_apply(vec![b("DEL"), b(k)]).await;
     }
 
     async fn dump_op(&mut self, out: &mut Out) {
@@ -608,7 +767,7 @@ impl World {
                             Some(v) => lookup(v, k),
                             None => typed(&self.st, k).await,
                         };
-                        out.count(&format!("watch:type:{}", match &t { Typed::Missing => "missing", Typed::Str(_) => "string", Typed::List(_) => "list", Typed::Other(_) => "other" }));
+                        out.count(&format!("watch:type:{}", kind(&t)));
                         self.watched.push((k.clone(), t));
                     }
                 }
@@ -633,6 +792,7 @@ impl World {
             Inp::Exec(_) => {
                 self.in_multi = false;
                 self.last_exec = Some(show(&r, false));
+                self.last_changed = changed.iter().any(|c| c.3);
                 let body = std::mem::take(&mut self.body);
                 let watched = std::mem::take(&mut self.watched);
                 let queued: Vec<&Inp> = body.iter().filter(|(_, r)| *r == Rv::Simple("QUEUED".into())).map(|(i, _)| i).collect();
@@ -670,12 +830,13 @@ impl World {
                             out.violation("C05:execabort:missing", "an input was refused at queue time but EXEC executed the queue", self.replay_json());
                         }
                         if let Some((k, t0, now, _)) = changed.iter().find(|c| c.3) {
-                            // KNOWN cause, exactly: the key held a list at WATCH time and holds a
-                            // (different) list now, and the model of the current code predicts
+                            // KNOWN cause, exactly: the key held a NON-STRING value (list, hash, set,
+                            // zset) at WATCH time and holds a different non-string value now (the
+                            // GET-reply snapshot is the constant WRONGTYPE error), and the model of the current code predicts
                             // "EXEC proceeds" (every GET-reply snapshot still matches).  Anything
                             // else that is missed is a different defect.
                             let model_aborts = changed.iter().any(|c| model_snapshot(&c.1) != model_snapshot(&c.2));
-                            let all_list_to_list = changed.iter().all(|c| matches!((&c.1, &c.2), (Typed::List(_), Typed::List(_))));
+                            let all_list_to_list = changed.iter().all(|c| non_string(&c.1) && non_string(&c.2));
                             let sig = if all_list_to_list && !model_aborts {
                                 "C05:watch:non-string-key-change-undetected".to_string()
                             } else {
@@ -945,16 +1106,8 @@ impl World {
         self.tw = Conn::open(&self.twin);
         self.log.clear();
         for (k, t) in after {
-            match t {
-                Typed::Str(v) => {
-                    self.twin_apply(vec![b("SET"), b(&k), v]).await;
-                }
-                Typed::List(l) => {
-                    let mut a = vec![b("RPUSH"), b(&k)];
-                    a.extend(l);
-                    self.twin_apply(a).await;
-                }
-                _ => {}
+            for a in rebuild_frames(&k, &t) {
+                self.twin_apply(a).await;
             }
         }
     }
@@ -971,23 +1124,153 @@ fn key(rng: &mut Rng) -> String {
     rng.pick(&KEYS).to_string()
 }
 
+const FIELDS: [&str; 3] = ["f", "g", "ab"];
+const MEMBERS: [&str; 3] = ["alice", "bob", "c"];
+const SCORES: [i64; 5] = [10, 15, 20, 25, -5];
+
 fn gen_cmd(rng: &mut Rng, writes_only: bool) -> Cmd {
     let k = key(rng);
-    let n = if writes_only { 5 } else { 9 };
+    let n = if writes_only { 13 } else { 17 };
     match rng.below(n) {
         0 => Cmd::Set(k, val(rng)),
         1 => Cmd::Incr(k),
         2 => Cmd::Append(k, val(rng)),
         3 => Cmd::Del(k),
         4 => Cmd::Rpush(k, (0..rng.range(1, 2)).map(|_| b(*rng.pick(&ELEMS))).collect()),
-        5 => Cmd::Get(k),
-        6 => Cmd::Lrange(k),
-        7 => Cmd::Llen(k),
+        5 => Cmd::Lset(k, b(*rng.pick(&ELEMS))),
+        6 => Cmd::Lpop(k),
+        7 => Cmd::Hset(k, b(*rng.pick(&FIELDS)), b(*rng.pick(&ELEMS))),
+        8 => Cmd::Hdel(k, b(*rng.pick(&FIELDS))),
+        9 => Cmd::Sadd(k, b(*rng.pick(&MEMBERS))),
+        10 => Cmd::Srem(k, b(*rng.pick(&MEMBERS))),
+        11 => Cmd::Zadd(k, *rng.pick(&SCORES), b(*rng.pick(&MEMBERS))),
+        12 => Cmd::Zrem(k, b(*rng.pick(&MEMBERS))),
+        13 => Cmd::Get(k),
+        14 => Cmd::Lrange(k),
+        15 => Cmd::Llen(k),
         _ => Cmd::Ping,
     }
 }
 
+/// a value of every type
+fn gen_populate(rng: &mut Rng) -> Cmd {
+    let k = key(rng);
+    match rng.below(8) {
+        0..=2 => Cmd::Set(k, val(rng)),
+        3 => Cmd::Rpush(k, vec![b("a")]),
+        4 => Cmd::Hset(k, b(*rng.pick(&FIELDS)), b("1")),
+        5 => Cmd::Sadd(k, b(*rng.pick(&MEMBERS))),
+        _ => Cmd::Zadd(k, *rng.pick(&SCORES), b(*rng.pick(&MEMBERS))),
+    }
+}
+
+// ---------------------------------------------------------------- the WATCH matrix
+
+#[derive(Clone)]
+enum Mod {
+    C(Cmd),
+    /// the key gets a 1 ms deadline and the deadline passes
+    ExpireNow,
+}
+
+/// (type of the watched key `w`, setup, modification label, modification)
+fn matrix() -> Vec<(&'static str, Vec<Cmd>, &'static str, Vec<Mod>)> {
+    let w = || "w".to_string();
+    let setups: Vec<(&'static str, Vec<Cmd>)> = vec![
+        ("missing", vec![]),
+        ("string", vec![Cmd::Set(w(), b("5"))]),
+        ("list", vec![Cmd::Rpush(w(), vec![b("a"), b("b")])]),
+        ("hash", vec![Cmd::Hset(w(), b("f"), b("1")), Cmd::Hset(w(), b("g"), b("2"))]),
+        ("set", vec![Cmd::Sadd(w(), b("alice")), Cmd::Sadd(w(), b("bob"))]),
+        ("zset", vec![Cmd::Zadd(w(), 10, b("alice")), Cmd::Zadd(w(), 20, b("bob"))]),
+        ("zset1", vec![Cmd::Zadd(w(), 10, b("alice"))]),
+    ];
+    let c = |x: Cmd| Mod::C(x);
+    let mut v = Vec::new();
+    for (i, (ty, setup)) in setups.iter().enumerate() {
+        let mut mods: Vec<(&'static str, Vec<Mod>)> = vec![
+            ("none", vec![]),
+            ("ttl-set", vec![c(Cmd::Expire(w()))]),
+            ("ttl-set-then-persist", vec![c(Cmd::Expire(w())), c(Cmd::Persist(w(), false))]),
+            ("overwrite-with-string", vec![c(Cmd::Set(w(), b("zz")))]),
+        ];
+        if *ty != "missing" {
+            mods.push(("delete", vec![c(Cmd::Del(w()))]));
+            let mut rec = vec![c(Cmd::Del(w()))];
+            rec.extend(setup.iter().cloned().map(Mod::C));
+            mods.push(("delete-recreate-same-value", rec));
+            mods.push(("expiry-passed", vec![Mod::ExpireNow]));
+            // type change to the next non-string type (and to a list for strings)
+            let next = &setups[if i + 1 < setups.len() - 1 { (i + 1).max(2) } else { 2 }];
+            if next.0 != *ty {
+                let mut tc = vec![c(Cmd::Del(w()))];
+                tc.extend(next.1.iter().cloned().map(Mod::C));
+                mods.push(("type-change-to-non-string", tc));
+            }
+        }
+        match *ty {
+            "missing" => {
+                mods.push(("create-string", vec![c(Cmd::Set(w(), b("1")))]));
+                mods.push(("create-list", vec![c(Cmd::Rpush(w(), vec![b("a")]))]));
+                mods.push(("create-hash", vec![c(Cmd::Hset(w(), b("f"), b("1")))]));
+                mods.push(("create-set", vec![c(Cmd::Sadd(w(), b("a")))]));
+                mods.push(("create-zset", vec![c(Cmd::Zadd(w(), 1, b("a")))]));
+                mods.push(("create-then-delete", vec![c(Cmd::Set(w(), b("1"))), c(Cmd::Del(w()))]));
+            }
+            "string" => {
+                mods.push(("value-change", vec![c(Cmd::Set(w(), b("6")))]));
+                mods.push(("same-length-replacement", vec![c(Cmd::Set(w(), b("7")))]));
+                mods.push(("append", vec![c(Cmd::Append(w(), b("x")))]));
+                mods.push(("incr", vec![c(Cmd::Incr(w()))]));
+                mods.push(("same-value-rewrite", vec![c(Cmd::Set(w(), b("5")))]));
+                mods.push(("change-and-change-back", vec![c(Cmd::Set(w(), b("6"))), c(Cmd::Set(w(), b("5")))]));
+            }
+            "list" => {
+                mods.push(("element-add", vec![c(Cmd::Rpush(w(), vec![b("c")]))]));
+                mods.push(("element-remove", vec![c(Cmd::Lpop(w()))]));
+                mods.push(("same-length-replacement", vec![c(Cmd::Lset(w(), b("z")))]));
+                mods.push(("same-value-rewrite", vec![c(Cmd::Lset(w(), b("a")))]));
+            }
+            "hash" => {
+                mods.push(("field-add", vec![c(Cmd::Hset(w(), b("h"), b("3")))]));
+                mods.push(("field-remove", vec![c(Cmd::Hdel(w(), b("f")))]));
+                mods.push(("field-value-change", vec![c(Cmd::Hset(w(), b("f"), b("9")))]));
+                mods.push(("same-value-rewrite", vec![c(Cmd::Hset(w(), b("f"), b("1")))]));
+                mods.push(("same-cardinality-replacement", vec![c(Cmd::Hdel(w(), b("f"))), c(Cmd::Hset(w(), b("h"), b("1")))]));
+            }
+            "set" => {
+                mods.push(("member-add", vec![c(Cmd::Sadd(w(), b("c")))]));
+                mods.push(("member-remove", vec![c(Cmd::Srem(w(), b("alice")))]));
+                mods.push(("same-cardinality-replacement", vec![c(Cmd::Srem(w(), b("alice"))), c(Cmd::Sadd(w(), b("c")))]));
+                mods.push(("same-value-rewrite", vec![c(Cmd::Sadd(w(), b("alice")))]));
+            }
+            "zset" => {
+                mods.push(("member-add", vec![c(Cmd::Zadd(w(), 30, b("c")))]));
+                mods.push(("member-remove", vec![c(Cmd::Zrem(w(), b("alice")))]));
+                mods.push(("score-change-same-rank-order", vec![c(Cmd::Zadd(w(), 15, b("alice")))]));
+                mods.push(("score-change-reorder", vec![c(Cmd::Zadd(w(), 25, b("alice")))]));
+                mods.push(("score-change-to-tie", vec![c(Cmd::Zadd(w(), 20, b("alice")))]));
+                mods.push(("same-value-rewrite", vec![c(Cmd::Zadd(w(), 10, b("alice")))]));
+                mods.push(("same-cardinality-replacement", vec![c(Cmd::Zrem(w(), b("alice"))), c(Cmd::Zadd(w(), 10, b("c")))]));
+                mods.push(("score-change-and-back", vec![c(Cmd::Zadd(w(), 15, b("alice"))), c(Cmd::Zadd(w(), 10, b("alice")))]));
+            }
+            _ => {
+                mods.push(("score-change-one-member", vec![c(Cmd::Zadd(w(), 11, b("alice")))]));
+                mods.push(("score-change-negative", vec![c(Cmd::Zadd(w(), -5, b("alice")))]));
+            }
+        }
+        for (label, m) in mods {
+            v.push((*ty, setup.clone(), label, m));
+        }
+    }
+    v
+}
+
 async fn session(out: &mut Out, rng: &mut Rng, script: Option<(usize, Vec<Step>)>) {
+    session_labelled(out, rng, script, None).await
+}
+
+async fn session_labelled(out: &mut Out, rng: &mut Rng, script: Option<(usize, Vec<Step>)>, matrix_label: Option<String>) {
     let (shards, fixed) = match script {
         Some((s, v)) => (s, Some(v)),
         None => (if rng.chance(1, 2) { 1 } else { 4 }, None),
@@ -1002,6 +1285,7 @@ async fn session(out: &mut Out, rng: &mut Rng, script: Option<(usize, Vec<Step>)
                 Step::Other(c) => w.foreign(out, c).await,
                 Step::ConcExec(sc) => w.concurrent_exec(out, sc).await,
                 Step::Block(b) => w.pipelined(out, b).await,
+                Step::ExpireNow(k) => w.expire_now(out, &k).await,
                 Step::ExpectExec(sig, want) => {
                     // a repaired defect: its witness must now PASS
                     if w.last_exec.as_deref() == Some(want) {
@@ -1019,7 +1303,7 @@ async fn session(out: &mut Out, rng: &mut Rng, script: Option<(usize, Vec<Step>)
     } else {
         // populate: strings and lists
         for _ in 0..rng.range(1, 7) {
-            let c = if rng.chance(3, 5) { Cmd::Set(key(rng), val(rng)) } else { Cmd::Rpush(key(rng), vec![b("a")]) };
+            let c = gen_populate(rng);
             w.foreign(out, c).await;
         }
         let steps = rng.range(6, 24);
@@ -1060,6 +1344,12 @@ async fn session(out: &mut Out, rng: &mut Rng, script: Option<(usize, Vec<Step>)
                     76..=78 => w.input(out, Inp::Perr(rng.next())).await,
                     79..=80 => w.input(out, Inp::Local(rng.below(4) as u8)).await,
                     81 => w.input(out, Inp::Chan).await,
+                    82 => w.foreign(out, Cmd::Expire(key(rng))).await,
+                    83 => w.foreign(out, Cmd::Persist(key(rng), false)).await,
+                    84 if rng.chance(1, 4) => {
+                        let k = key(rng);
+                        w.expire_now(out, &k).await
+                    }
                     _ => w.foreign(out, gen_cmd(rng, true)).await,
                 }
             } else {
@@ -1096,6 +1386,14 @@ async fn session(out: &mut Out, rng: &mut Rng, script: Option<(usize, Vec<Step>)
         }
     }
     w.dump_op(out).await;
+    if let Some(l) = matrix_label {
+        let outcome = match w.last_exec.as_deref() {
+            Some("*-") => "aborted",
+            Some(r) if r.starts_with('*') => "proceeded",
+            _ => "other",
+        };
+        out.count(&format!("watchmatrix:connection-{}shard:{}:{}:value-{}", shards, l, outcome, if w.last_changed { "changed" } else { "same" }));
+    }
     let text = format!("{}|{}", shards, w.text.join(";"));
     out.case(&text, w.nontrivial);
     out.sample(json!({"shards": shards, "session": w.text}));
@@ -1127,6 +1425,8 @@ enum Step {
     ConcExec(Vec<Vec<Cmd>>),
     /// inputs written in one write
     Block(Vec<Inp>),
+    /// the other client lets a key's deadline pass
+    ExpireNow(String),
     /// (signature of a repaired defect, canonical reply its last EXEC must now give)
     ExpectExec(&'static str, &'static str),
 }
@@ -1243,6 +1543,28 @@ fn xtyped(ex: &CommandExecutor, k: &str) -> Typed {
         None => Typed::Missing,
         Some(Value::String(s)) => Typed::Str(s.as_bytes().to_vec()),
         Some(Value::List(l)) => Typed::List(l.range(0, -1).iter().map(|s| s.as_bytes().to_vec()).collect()),
+        Some(Value::Hash(h)) => {
+            let mut v: Vec<(Vec<u8>, Vec<u8>)> = h.get_all().iter().map(|(f, x)| (f.as_bytes().to_vec(), x.as_bytes().to_vec())).collect();
+            v.sort_by(|a, b| bkey(&a.0, &b.0));
+            Typed::Hash(v)
+        }
+        Some(Value::Set(m)) => {
+            let mut v: Vec<Vec<u8>> = m.members().iter().map(|x| x.as_bytes().to_vec()).collect();
+            v.sort_by(|a, b| bkey(a, b));
+            Typed::Set(v)
+        }
+        Some(Value::SortedSet(z)) => {
+            // read member by member through the accessors (NOT through `==` on the value)
+            let mut v = Vec::new();
+            for (m, sc) in z.range(0, -1) {
+                if sc.fract() != 0.0 {
+                    return Typed::Other(format!("non-integral score {}", sc));
+                }
+                v.push((m.as_bytes().to_vec(), sc as i64));
+            }
+            v.sort_by(|a, b| bkey(&a.0, &b.0));
+            Typed::Zset(v)
+        }
         Some(_) => Typed::Other("other".into()),
     }
 }
@@ -1253,7 +1575,51 @@ fn xdump(ex: &CommandExecutor) -> Vec<(String, Typed)> {
     keys.into_iter().map(|k| (k.to_string(), xtyped(ex, k))).collect()
 }
 
-fn xsession(out: &mut Out, rng: &mut Rng, corpus: Option<u8>) {
+#[derive(Clone)]
+enum XStep {
+    Watch(Vec<String>),
+    Multi,
+    Exec,
+    Discard,
+    Unwatch,
+    Cmd(Cmd),
+    /// PEXPIRE k 1, then time passes and the key is evicted (outside MULTI only)
+    ExpireNow(String),
+}
+
+fn gen_xstep(rng: &mut Rng, in_multi: bool) -> XStep {
+    let c = rng.below(100);
+    if !in_multi {
+        match c {
+            0..=19 => XStep::Watch((0..rng.range(1, 2)).map(|_| key(rng)).collect()),
+            20..=44 => XStep::Multi,
+            45..=49 => XStep::Unwatch,
+            50..=53 => XStep::Cmd(Cmd::Unk),
+            54..=55 => XStep::Exec,
+            56 => XStep::Discard,
+            57..=58 => XStep::Cmd(Cmd::Expire(key(rng))),
+            59 => XStep::Cmd(Cmd::Persist(key(rng), false)),
+            60..=61 => XStep::ExpireNow(key(rng)),
+            62..=70 => XStep::Cmd(gen_populate(rng)),
+            _ => XStep::Cmd(gen_cmd(rng, false)),
+        }
+    } else {
+        match c {
+            0..=14 => XStep::Exec,
+            15..=19 => XStep::Discard,
+            20..=23 => XStep::Multi,
+            24..=27 => XStep::Watch(vec!["k".into()]),
+            45..=49 => XStep::Unwatch,
+            50..=53 => XStep::Cmd(Cmd::Unk),
+            _ => XStep::Cmd(gen_cmd(rng, false)),
+        }
+    }
+}
+
+/// one executor-level session on a REAL `CommandExecutor`, driven the way the shard actor drives
+/// it (`set_time(now)` before every command, which evicts keys whose deadline passed)
+fn xsession(out: &mut Out, rng: &mut Rng, script: Option<Vec<XStep>>, expect: Option<(&'static str, &'static str)>, matrix_label: Option<String>) {
+    use redis_sim::simulator::VirtualTime;
     let mut ex = CommandExecutor::new();
     let mut twin = CommandExecutor::new();
     out.op("XNEW".into(), "ok".into());
@@ -1263,54 +1629,81 @@ fn xsession(out: &mut Out, rng: &mut Rng, corpus: Option<u8>) {
     let mut text: Vec<String> = Vec::new();
     let mut nontrivial = false;
     let mut last_exec: Option<String> = None;
-    // corpus: the list-key WATCH that the connection level misses is detected here
-    let script: Vec<u64> = match corpus {
-        Some(0) => vec![200, 201, 202, 203, 204, 205],
-        // x_rewatch_forgets_change_pinned_counterexample — repaired: EXEC must now answer nil
-        Some(_) => vec![210, 211, 212, 211, 203, 213, 205],
-        None => (0..rng.range(6, 24)).map(|_| rng.below(100)).collect(),
-    };
-    for choice in script {
+    let mut last_changed = false;
+    let mut now: u64 = 1000;
+    let n_random = rng.range(6, 24);
+    let mut script_it = script.map(|v| v.into_iter());
+    let mut i = 0;
+    loop {
+        let step = match &mut script_it {
+            Some(it) => match it.next() {
+                Some(s) => s,
+                None => break,
+            },
+            None => {
+                if i >= n_random {
+                    break;
+                }
+                gen_xstep(rng, in_multi)
+            }
+        };
+        i += 1;
+        now += 1;
+        ex.set_time(VirtualTime::from_millis(now));
+        twin.set_time(VirtualTime::from_millis(now));
         // (op line, frame)
-        let (line, args): (String, Vec<Vec<u8>>) = match choice {
-            200 => ("X CMD RPUSH x77 1 x31".into(), Cmd::Rpush("w".into(), vec![b("1")]).args()),
-            201 => ("X WATCH 1 x77".into(), vec![b("WATCH"), b("w")]),
-            202 => ("X CMD RPUSH x77 1 x32".into(), Cmd::Rpush("w".into(), vec![b("2")]).args()),
-            203 => ("X MULTI".into(), vec![b("MULTI")]),
-            204 => ("X CMD SET x78 x31".into(), Cmd::Set("x".into(), b("1")).args()),
-            205 => ("X EXEC".into(), vec![b("EXEC")]),
-            210 => ("X CMD SET x6b x30".into(), Cmd::Set("k".into(), b("0")).args()),
-            211 => ("X WATCH 1 x6b".into(), vec![b("WATCH"), b("k")]),
-            212 => ("X CMD SET x6b x31".into(), Cmd::Set("k".into(), b("1")).args()),
-            213 => ("X CMD GET x6b".into(), Cmd::Get("k".into()).args()),
-            0..=19 if !in_multi => {
-                let ks: Vec<String> = (0..rng.range(1, 2)).map(|_| key(rng)).collect();
+        let (line, args): (String, Vec<Vec<u8>>) = match &step {
+            XStep::Watch(ks) => {
                 let mut a = vec![b("WATCH")];
                 a.extend(ks.iter().map(|k| b(k)));
                 (format!("X WATCH {} {}", ks.len(), ks.iter().map(|k| hex(k.as_bytes())).collect::<Vec<_>>().join(" ")), a)
             }
-            20..=44 if !in_multi => ("X MULTI".into(), vec![b("MULTI")]),
-            0..=14 => ("X EXEC".into(), vec![b("EXEC")]),
-            15..=19 => ("X DISCARD".into(), vec![b("DISCARD")]),
-            20..=23 => ("X MULTI".into(), vec![b("MULTI")]),
-            24..=27 => ("X WATCH 1 x6b".into(), vec![b("WATCH"), b("k")]),
-            45..=49 => ("X UNWATCH".into(), vec![b("UNWATCH")]),
-            50..=53 => ("X CMD UNK".into(), Cmd::Unk.args()),
-            54..=56 if !in_multi => (if rng.chance(1, 2) { "X EXEC".into() } else { "X DISCARD".into() }, vec![]),
-            _ => {
-                let c = gen_cmd(rng, false);
+            XStep::Multi => ("X MULTI".into(), vec![b("MULTI")]),
+            XStep::Exec => ("X EXEC".into(), vec![b("EXEC")]),
+            XStep::Discard => ("X DISCARD".into(), vec![b("DISCARD")]),
+            XStep::Unwatch => ("X UNWATCH".into(), vec![b("UNWATCH")]),
+            XStep::Cmd(c) => {
+                let c = match c {
+                    Cmd::Persist(k, _) if !in_multi => {
+                        let had = matches!(Rv::from_resp(&ex.execute(&cmd_of(&["TTL", k]))), Rv::Int(n) if n >= 0);
+                        Cmd::Persist(k.clone(), had)
+                    }
+                    Cmd::Persist(k, _) => Cmd::Llen(k.clone()), // the flag cannot be observed inside MULTI
+                    c => c.clone(),
+                };
                 (format!("X CMD {}", c.line()), c.args())
             }
+            XStep::ExpireNow(k) => {
+                if in_multi {
+                    continue;
+                }
+                // PEXPIRE k 1 (model: EXPIRE, reply only); 10 ms pass; the next set_time evicts
+                let r = Rv::from_resp(&ex.execute(&cmd_of(&["PEXPIRE", k, "1"])));
+                twin.execute(&cmd_of(&["DEL", k]));
+                text.push(format!("PEXPIRE {} 1; (10 ms pass)", k));
+                out.op(format!("X CMD EXPIRE {}", hex(k.as_bytes())), show(&r, false));
+                now += 10;
+                ex.set_time(VirtualTime::from_millis(now));
+                let gone = xtyped(&ex, k) == Typed::Missing;
+                out.op(format!("XEVICT {}", hex(k.as_bytes())), if gone { "ok".into() } else { "not-evicted".into() });
+                out.count("xinput:outside:expiry-passes");
+                continue;
+            }
         };
-        let args = if args.is_empty() { vec![b(line.split(' ').nth(1).unwrap())] } else { args };
         let kind = line.split(' ').nth(1).unwrap().to_string();
         out.count(&format!("xinput:{}:{}", if in_multi { "in-multi" } else { "outside" }, kind));
         let before = xdump(&ex);
         // may-abort: some snapshot differs; must-abort: the FIRST snapshot of a key differs
         let changed: Vec<String> = watched.iter().filter(|(k, t0)| xtyped(&ex, k) != *t0).map(|(k, _)| k.clone()).collect();
-        let must: Vec<String> = KEYS.iter().filter_map(|k| watched.iter().find(|(w, _)| w == k)).filter(|(k, t0)| xtyped(&ex, k) != *t0).map(|(k, _)| k.clone()).collect();
+        let must: Vec<(String, Typed, Typed)> = KEYS
+            .iter()
+            .filter_map(|k| watched.iter().find(|(w, _)| w == k))
+            .filter(|(k, t0)| xtyped(&ex, k) != *t0)
+            .map(|(k, t0)| (k.clone(), t0.clone(), xtyped(&ex, k)))
+            .collect();
         // is every change hidden by a later WATCH of the same key (whose snapshot is current)?
-        let only_rewatch = must.iter().all(|k| watched.iter().rev().find(|(w, _)| w == k).map(|(_, t)| *t == xtyped(&ex, k)).unwrap_or(false));
+        let only_rewatch = must.iter().all(|(k, _, _)| watched.iter().rev().find(|(w, _)| w == k).map(|(_, t)| *t == xtyped(&ex, k)).unwrap_or(false))
+            && must.iter().any(|(k, _, _)| watched.iter().filter(|(w, _)| w == k).count() > 1);
         let cmd = to_command(&args);
         let r = match std::panic::catch_unwind(std::panic::AssertUnwindSafe(|| ex.execute(&cmd))) {
             Ok(r) => Rv::from_resp(&r),
@@ -1332,6 +1725,7 @@ fn xsession(out: &mut Out, rng: &mut Rng, corpus: Option<u8>) {
                         // strict: the value at EVERY earlier WATCH counts (Redis: re-watching a
                         // key is a no-op, the first watch stands)
                         let t = xtyped(&ex, &k);
+                        out.count(&format!("xwatch:type:{}", kind_of(&t)));
                         watched.push((k, t));
                     }
                 }
@@ -1347,6 +1741,7 @@ fn xsession(out: &mut Out, rng: &mut Rng, corpus: Option<u8>) {
             "EXEC" => {
                 in_multi = false;
                 last_exec = Some(show(&r, false));
+                last_changed = !must.is_empty();
                 nontrivial |= !queued.is_empty() || !watched.is_empty();
                 match &r {
                     Rv::Bulk(None) => {
@@ -1360,9 +1755,14 @@ fn xsession(out: &mut Out, rng: &mut Rng, corpus: Option<u8>) {
                     }
                     Rv::Arr(Some(results)) => {
                         out.count("xexec:results");
-                        if !must.is_empty() {
-                            let sig = if only_rewatch { "C05:x:watch:rewatch-forgets-earlier-change" } else { "C05:x:watch:change-undetected" };
-                            out.violation(sig, &format!("executor EXEC succeeded although watched key(s) {:?} changed since their (first) WATCH", must), replay.clone());
+                        if let Some((k, t0, t1)) = must.first() {
+                            // the executor compares whole values: NO change of any type may be missed
+                            let sig = if only_rewatch {
+                                "C05:x:watch:rewatch-forgets-earlier-change".to_string()
+                            } else {
+                                format!("C05:x:watch:change-undetected:{}-to-{}", kind_of(t0), kind_of(t1))
+                            };
+                            out.violation(&sig, &format!("executor EXEC succeeded ({}) although watched key '{}' changed from {:?} (at WATCH) to {:?} (at EXEC)", show(&r, false), k, t0, t1), replay.clone());
                         }
                         if results.len() != queued.len() {
                             out.violation("C05:x:exec:result-count", &format!("{} results for {} queued commands", results.len(), queued.len()), replay.clone());
@@ -1405,20 +1805,52 @@ fn xsession(out: &mut Out, rng: &mut Rng, corpus: Option<u8>) {
             }
         }
     }
-    if corpus == Some(1) {
-        let sig = "C05:x:watch:rewatch-forgets-earlier-change";
-        if last_exec.as_deref() == Some("$-") {
-            out.count(&format!("corpus:fixed-defect-passes:{}", sig));
+    if let Some((sig, want)) = expect {
+        if last_exec.as_deref() == Some(want) {
+            out.count(&format!("corpus:witness-passes:{}", sig));
         } else {
             out.violation(
-                &format!("C05:fixed-defect-regressed:{}", sig),
-                &format!("the witness of the repaired defect {} fails again: EXEC answered {:?}, expected $- (nil)", sig, last_exec),
+                &format!("C05:witness-fails:{}", sig),
+                &format!("fixed executor-level witness: EXEC answered {:?}, expected {}", last_exec, want),
                 json!({"level": "executor", "session": text}),
             );
         }
     }
+    if let Some(l) = matrix_label {
+        let outcome = match last_exec.as_deref() {
+            Some("$-") => "aborted",
+            Some(r) if r.starts_with('*') => "proceeded",
+            _ => "other",
+        };
+        out.count(&format!("watchmatrix:executor:{}:{}:value-{}", l, outcome, if last_changed { "changed" } else { "same" }));
+    }
     out.op("XDUMP".into(), show_dump(&xdump(&ex)));
     out.case(&format!("x|{}", text.join(";")), nontrivial);
+}
+
+fn kind_of(t: &Typed) -> &'static str {
+    kind(t)
+}
+
+fn xcorpus() -> Vec<(Vec<XStep>, Option<(&'static str, &'static str)>)> {
+    let c = XStep::Cmd;
+    vec![
+        // the list-key WATCH that the connection level misses is detected here
+        (vec![c(Cmd::Rpush("w".into(), vec![b("1")])), XStep::Watch(vec!["w".into()]), c(Cmd::Rpush("w".into(), vec![b("2")])), XStep::Multi, c(Cmd::Set("x".into(), b("1"))), XStep::Exec],
+         Some(("C05:x:watch:list-change-detected", "$-"))),
+        // x_rewatch_forgets_change_pinned_counterexample — repaired: EXEC must answer nil
+        (vec![c(Cmd::Set("k".into(), b("0"))), XStep::Watch(vec!["k".into()]), c(Cmd::Set("k".into(), b("1"))), XStep::Watch(vec!["k".into()]), XStep::Multi, c(Cmd::Get("k".into())), XStep::Exec],
+         Some(("C05:x:watch:rewatch-forgets-earlier-change", "$-"))),
+        // x_score_blind_equality_counterexample / seeded C05-zset-eq-ignores-scores: the score of
+        // a member changes, the rank order does not (board = "ab", winner = "w")
+        (vec![c(Cmd::Zadd("ab".into(), 10, b("alice"))), c(Cmd::Zadd("ab".into(), 20, b("bob"))), c(Cmd::Set("w".into(), b("nobody"))),
+              XStep::Watch(vec!["ab".into()]), c(Cmd::Zadd("ab".into(), 15, b("alice"))), XStep::Multi,
+              c(Cmd::Set("w".into(), b("bob"))), c(Cmd::Zadd("ab".into(), 0, b("alice"))), XStep::Exec],
+         Some(("C05:x:watch:zset-score-only-change-detected", "$-"))),
+        // … and in a one-member sorted set
+        (vec![c(Cmd::Zadd("ab".into(), 10, b("alice"))), XStep::Watch(vec!["ab".into()]), c(Cmd::Zadd("ab".into(), 11, b("alice"))), XStep::Multi, c(Cmd::Set("w".into(), b("x"))), XStep::Exec],
+         Some(("C05:x:watch:zset-score-only-change-detected", "$-"))),
+    ]
 }
 
 pub fn run(a: &Args) {
@@ -1430,8 +1862,46 @@ pub fn run(a: &Args) {
             session(&mut out, &mut Rng::new(0xC05), Some((shards, steps))).await;
         }
     });
-    xsession(&mut out, &mut Rng::new(0xC05), Some(0));
-    xsession(&mut out, &mut Rng::new(0xC05), Some(1));
+    for (script, expect) in xcorpus() {
+        xsession(&mut out, &mut Rng::new(0xC05), Some(script), expect, None);
+    }
+    // the WATCH matrix: every (level × type of the watched key × modification), each as one
+    // scripted session `setup; WATCH w; modification (other client / plain commands); MULTI;
+    // SET x 1; EXEC`
+    let rt = tokio::runtime::Builder::new_current_thread().enable_all().build().unwrap();
+    rt.block_on(async {
+        for (ty, setup, label, mods) in matrix() {
+            for shards in [1usize, 4] {
+                let mut steps: Vec<Step> = setup.iter().cloned().map(Step::Other).collect();
+                steps.push(Step::In(Inp::Watch(vec!["w".into()])));
+                for m in &mods {
+                    steps.push(match m {
+                        Mod::C(c) => Step::Other(c.clone()),
+                        Mod::ExpireNow => Step::ExpireNow("w".into()),
+                    });
+                }
+                steps.push(Step::In(Inp::Multi));
+                steps.push(Step::In(Inp::Cmd(Cmd::Set("x".into(), b("1")))));
+                steps.push(Step::In(Inp::Exec(vec![])));
+                session_labelled(&mut out, &mut Rng::new(0xC05), Some((shards, steps)), Some(format!("{}:{}", ty, label))).await;
+            }
+        }
+    });
+    drop(rt);
+    for (ty, setup, label, mods) in matrix() {
+        let mut steps: Vec<XStep> = setup.iter().cloned().map(XStep::Cmd).collect();
+        steps.push(XStep::Watch(vec!["w".into()]));
+        for m in &mods {
+            steps.push(match m {
+                Mod::C(c) => XStep::Cmd(c.clone()),
+                Mod::ExpireNow => XStep::ExpireNow("w".into()),
+            });
+        }
+        steps.push(XStep::Multi);
+        steps.push(XStep::Cmd(Cmd::Set("x".into(), b("1"))));
+        steps.push(XStep::Exec);
+        xsession(&mut out, &mut Rng::new(0xC05), Some(steps), None, Some(format!("{}:{}", ty, label)));
+    }
     // a fresh runtime every 200 sessions: the shard actors of finished sessions go away with it
     let mut done = 0;
     while done < a.n {
@@ -1447,7 +1917,7 @@ pub fn run(a: &Args) {
     }
     for _ in 0..a.n / 2 {
         let mut r = rng.fork();
-        xsession(&mut out, &mut r, None);
+        xsession(&mut out, &mut r, None, None, None);
     }
-    out.finish("case = one session. Part A: 6..24 steps on REAL connection handlers (hook H1) sharing one ShardedActorState (1 or 4 shards): modelled client inputs (WATCH, MULTI, data commands GET/SET/INCR/APPEND/DEL/RPUSH/LRANGE/LLEN/PING on 6 keys holding strings, integers, non-integers and lists, run-time failing commands, unknown commands, arity errors, nested MULTI, WATCH in MULTI, EXEC/DISCARD without MULTI, UNWATCH, connection-level commands AUTH/ACL WHOAMI/RESET/CLIENT SETNAME, PUBLISH) interleaved with the other client's writes before WATCH, between WATCH and MULTI, between MULTI and EXEC, and during EXEC (pipeline in lock step with EXEC's store accesses: sampled schedule); part B: 6..24 inputs on a REAL CommandExecutor. Distinct by the full session text; non-trivial iff it contains an EXEC inside MULTI that had a non-empty queue or a watched key");
+    out.finish("case = one session. Part A: 6..24 steps on REAL connection handlers (hook H1) sharing one ShardedActorState (1 or 4 shards): modelled client inputs (WATCH, MULTI, data commands GET/SET/INCR/APPEND/DEL/RPUSH/LRANGE/LLEN/PING on 6 keys holding strings (integers, non-integers), lists, hashes, sets and sorted sets (LSET LPOP HSET HDEL SADD SREM ZADD ZREM, EXPIRE / PERSIST, deadlines that pass), run-time failing commands, unknown commands, arity errors, nested MULTI, WATCH in MULTI, EXEC/DISCARD without MULTI, UNWATCH, connection-level commands AUTH/ACL WHOAMI/RESET/CLIENT SETNAME, PUBLISH) interleaved with the other client's writes before WATCH, between WATCH and MULTI, between MULTI and EXEC, and during EXEC (pipeline in lock step with EXEC's store accesses: sampled schedule); part B: 6..24 inputs on a REAL CommandExecutor driven like the shard actor (set_time before every command); first of all the WATCH matrix: every (level: connection 1 shard | connection 4 shards | executor) × (type of the watched key) × (modification) as one scripted session, counted as watchmatrix:<level>:<type>:<modification>:<aborted|proceeded>:value-<changed|same>. Distinct by the full session text; non-trivial iff it contains an EXEC inside MULTI that had a non-empty queue or a watched key");
 }
